@@ -88,7 +88,23 @@ func instances(hyps []*T, sks []*T, neighbours bool) []*T {
 				visit(a, rest)
 			}
 		case term.OForall:
-			if len(h.Bnd) != 1 || h.Bnd[0].Sort != term.Int || h.Pat != nil {
+			if h.Pat != nil {
+				return
+			}
+			if len(h.Bnd) > 1 && len(h.Bnd) == len(sks) {
+				// several bound variables: positional instantiation with the goal's skolems (the
+				// invariant "forall k, t" is proved from the same invariant one iteration earlier)
+				m := map[*T]*T{}
+				for i, b := range h.Bnd {
+					if b.Sort != sks[i].Sort {
+						return
+					}
+					m[b] = sks[i]
+				}
+				emit(term.Subst(h.Args[0], m), ctx)
+				return
+			}
+			if len(h.Bnd) != 1 || h.Bnd[0].Sort != term.Int {
 				return
 			}
 			for _, sk := range sks {
